@@ -7,7 +7,7 @@ class C02(FloorProp):
     profile = 'c02'
     crash_every = 6
     design_ref = 'DESIGN.md section 4 / C02'
-    budgets = {'quick': 6000, 'thorough': 200000}
+    budgets = {'quick': 30000, 'thorough': 600000}
     level_text = ('Seeded search over random factory models (layered DAGs with fan-in/out, gates, shared, re-entrant and '
                   'nested groups, batches) x fault/op schedules x tie-break adversaries; a census of every generated part is '
                   'taken after every dispatched event. Sampling, not proof: the property quantifies over all topologies and '
